@@ -34,7 +34,7 @@ def xh_eq(a0: int, a1: int, b0: int, b1: int, fa: bool, fb: bool, kind: bool) ->
 
 def xh_nadv(n: int, s: int, traj: bool) -> bool:
     """
-    pre: 2 <= n <= 24
+    pre: 2 <= n <= 20
     pre: 1 <= s <= 4
     post: _
     """
